@@ -930,6 +930,13 @@ func keyCacheRule(c *Ctx, rf string) {
 					fresh = true
 					return
 				}
+				// a helper of the cache that reads the shared map hands out shared state
+				if g := call.Common().StaticCallee(); g != nil && g.Blocks != nil && pkgOf(g) == pkgOf(gk) {
+					if len(p.accessesOf(g, map[string]bool{"f:token/tokencache.Cache.keys": true})) > 0 {
+						shared = true
+						return
+					}
+				}
 			}
 			switch x := v.(type) {
 			case *ssa.Lookup:
